@@ -184,5 +184,161 @@ func ruleBufferPoolOwnership(p *Prog, r *Report, rule string) {
 			}
 		}
 	}
+	// buffers held in a local VARIABLE CELL (captured by a closure, e.g. a deferred clean-up): the
+	// same discipline, path by path — after Put(load c) the cell is dead until it is assigned again;
+	// a deferred closure that Puts the cell counts as a use at every return it can act on
+	for rel := range p.ByRel {
+		if rel == "leveldb/testutil" || rel == "leveldb/util" {
+			continue
+		}
+		for _, fn := range p.SrcFuncs(rel) {
+			if fn.Parent() != nil {
+				continue
+			}
+			n += cellBufferDiscipline(p, r, fn, fPut)
+		}
+	}
 	r.Check(n >= 5, "module", "put-sites", "BufferPool.Put call sites with a local buffer were found (table.Reader.readRawBlock)", fmt.Sprintf("%d", n), "")
 }
+
+// cellBufferDiscipline handles buffers kept in cells of fn (see ruleBufferPoolOwnership). Returns
+// the number of Put sites it took responsibility for.
+func cellBufferDiscipline(p *Prog, r *Report, fn *ssa.Function, fPut string) int {
+	// cells of fn that are Put somewhere (inline or in a deferred closure of fn)
+	type deferredPut struct {
+		def     *ssa.Defer
+		cell    *ssa.Alloc
+		onlyErr bool // the closure Puts only under `err != nil` (err = a named result cell of fn)
+	}
+	cellOf := func(v ssa.Value, in *ssa.Function) *ssa.Alloc {
+		u, ok := stripConv(v).(*ssa.UnOp)
+		if !ok {
+			return nil
+		}
+		al := resolveCell(u.X)
+		if al == nil || al.Parent() != fn {
+			return nil
+		}
+		return al
+	}
+	inline := map[ssa.Instruction]*ssa.Alloc{}
+	instrs(fn, func(_ *ssa.BasicBlock, _ int, in ssa.Instruction) {
+		if c, ok := in.(*ssa.Call); ok && isCallTo(c, fPut) {
+			if al := cellOf(c.Call.Args[1], fn); al != nil {
+				inline[in] = al
+			}
+		}
+	})
+	var defs []deferredPut
+	instrs(fn, func(_ *ssa.BasicBlock, _ int, in ssa.Instruction) {
+		d, ok := in.(*ssa.Defer)
+		if !ok {
+			return
+		}
+		mc, ok := d.Call.Value.(*ssa.MakeClosure)
+		if !ok {
+			return
+		}
+		cf, ok := mc.Fn.(*ssa.Function)
+		if !ok {
+			return
+		}
+		for _, c := range findCalls(cf, fPut) {
+			if al := cellOf(callCommon(c).Args[1], cf); al != nil {
+				errNil := nilAtom("err==nil", mCellNamed("err"))
+				guarded := findPathV(entryPoint(cf), atomEdges([]Atom{errNil}, []bool{true}), nil, func(x ssa.Instruction) bool { return x == c }, atomVals([]Atom{errNil}, []bool{true})) == nil
+				defs = append(defs, deferredPut{d, al, guarded})
+			}
+		}
+	})
+	if len(inline) == 0 && len(defs) == 0 {
+		return 0
+	}
+	sites := len(inline) + len(defs)
+	r.Site(sites)
+	r.Fn(fnName(fn))
+	bad, badPos := "", ""
+	type state struct {
+		put  map[*ssa.Alloc]bool
+		defd map[*ssa.Defer]bool
+	}
+	onPath := map[*ssa.BasicBlock]bool{}
+	steps := 0
+	var dfs func(b *ssa.BasicBlock, st state)
+	dfs = func(b *ssa.BasicBlock, st state) {
+		if bad != "" || steps > 20000 {
+			return
+		}
+		steps++
+		onPath[b] = true
+		defer func() { onPath[b] = false }()
+		cur := state{map[*ssa.Alloc]bool{}, map[*ssa.Defer]bool{}}
+		for k, v := range st.put {
+			cur.put[k] = v
+		}
+		for k, v := range st.defd {
+			cur.defd[k] = v
+		}
+		for _, in := range b.Instrs {
+			switch x := in.(type) {
+			case *ssa.Store:
+				if al := resolveCell(x.Addr); al != nil && al.Parent() == fn {
+					cur.put[al] = false
+				}
+			case *ssa.Defer:
+				cur.defd[x] = true
+			case *ssa.Return:
+				// deferred clean-ups that act on this return
+				errNonNil := true
+				for _, res := range x.Results {
+					if isErrorType(res.Type()) && isNilConst(retValue(x, res)) {
+						errNonNil = false
+					}
+				}
+				for _, d := range defs {
+					if cur.defd[d.def] && cur.put[d.cell] && (!d.onlyErr || errNonNil) {
+						bad = "the buffer in `" + cellRefName(d.cell) + "` is put back on this path and again by the deferred clean-up registered at " + p.Pos(d.def.Pos()) + ": one array is handed to two later readers"
+						badPos = p.Pos(x.Pos())
+					}
+				}
+				return
+			}
+			if al, ok := inline[in]; ok {
+				if cur.put[al] {
+					bad = "the buffer in `" + cellRefName(al) + "` is put back twice on one path"
+					badPos = p.Pos(in.Pos())
+					return
+				}
+				cur.put[al] = true
+				continue
+			}
+			// any other use of a put-back cell's value
+			for _, op := range in.Operands(nil) {
+				if *op == nil {
+					continue
+				}
+				if u, ok := (*op).(*ssa.UnOp); ok {
+					if al := resolveCell(u.X); al != nil && al.Parent() == fn && cur.put[al] && !diagnosticOnlyValue(in) {
+						if _, isStore := in.(*ssa.Store); isStore {
+							continue
+						}
+						bad = "the buffer in `" + cellRefName(al) + "` is used after it was put back"
+						badPos = p.Pos(in.Pos())
+						return
+					}
+				}
+			}
+		}
+		for _, s := range b.Succs {
+			if !onPath[s] {
+				dfs(s, cur)
+			}
+		}
+	}
+	dfs(fn.Blocks[0], state{map[*ssa.Alloc]bool{}, map[*ssa.Defer]bool{}})
+	r.Check(bad == "", fnName(fn), "cell-buffer-dead-after-put", "a pooled buffer kept in a local variable is put back at most once per path (deferred clean-ups included) and not used afterwards", bad, badPos)
+	return sites
+}
+
+// diagnosticOnlyValue: see diagnosticOnly; for instructions that are not IndexAddr nothing is tolerated.
+func diagnosticOnlyValue(in ssa.Instruction) bool { return diagnosticOnly(in) }
